@@ -195,6 +195,45 @@ class Grammar:
     def parse(self, text: str):
         return self.lark.parse(text)
 
+    def last_chars(self, term: str) -> Optional[Set[str]]:
+        """Set of characters a match of the terminal can end with, if the regex ends in a
+        literal or a small character class on every alternative; else None."""
+        import re._constants as sc  # type: ignore[import-not-found]
+
+        def tail(seq) -> Optional[Set[str]]:
+            items = list(seq)
+            if not items:
+                return None
+            op, av = items[-1]
+            if op is sc.LITERAL:
+                return {chr(av)}
+            if op is sc.IN:
+                out: Set[str] = set()
+                for o, a in av:
+                    if o is sc.LITERAL:
+                        out.add(chr(a))
+                    elif o is sc.RANGE and a[1] - a[0] < 64:
+                        out |= {chr(c) for c in range(a[0], a[1] + 1)}
+                    else:
+                        return None
+                return out
+            if op is sc.SUBPATTERN:
+                return tail(av[3])
+            if op is sc.BRANCH:
+                out2: Set[str] = set()
+                for alt in av[1]:
+                    t = tail(alt)
+                    if t is None:
+                        return None
+                    out2 |= t
+                return out2
+            return None
+
+        try:
+            return tail(self.regex_ast(term))
+        except Exception:  # noqa: BLE001
+            return None
+
 
 _cache: Dict[str, Grammar] = {}
 
